@@ -1,11 +1,251 @@
 import PyresampleModel.Model.Core
 
 /-
-  C06 — model (stub: not built yet).
+  C06 — model of the bilinear resampler's analytic core (`pyresample/bilinear/_base.py`), over exact
+  rationals. NaN is `none`; ±inf only ever feeds an "outside [0, 1]" test that turns it into NaN, so it is
+  `none` as well. `np.sqrt` is a parameter: every function that needs the square root of a discriminant
+  takes `r` ("the value returned by sqrt") and the theorems assume `r * r = discriminant`.
+
+  * `_get_stride_and_valid_corner_indices` / `_get_corner`  → `pickCorner`, `fourCorners`
+  * `_calc_abc`, `_solve_quadratic`, `_solve_another_fractional_distance` → `calcABC`, `solveQuadratic`, `solveAnother`
+  * `_get_fractional_distances_irregular / _uprights_parallel / _parallellogram`, `_invalid_s_and_t_to_nan`,
+    `_update_fractional_distances` → `irregular`, `uprights`, `parallelogram`, `fractional`
+  * `_resample` → `resample`
 -/
 namespace PyresampleModel.C06
 
+structure Pt where
+  x : Rat
+  y : Rat
+deriving Repr, DecidableEq
+
+/-- `find_indices_outside_min_and_max(v, 0, 1)` negated -/
+def in01 (v : Rat) : Bool := decide (0 ≤ v) && decide (v ≤ 1)
+
+/-- a / b with division by zero giving inf/NaN (= `none`) -/
+def divQ (a b : Rat) : Option Rat := if b = 0 then none else some (a / b)
+
+/-- keep a value only if it is inside [0, 1] (`np.where(outside, nan, v)`; NaN stays NaN) -/
+def keep01 : Option Rat → Option Rat
+  | some v => if in01 v then some v else none
+  | none => none
+
+/-! ### corner selection -/
+
+/-- quadrant tests of `_get_stride_and_valid_corner_indices` for corner number `q` (0 = upper left,
+1 = upper right, 2 = lower left, 3 = lower right); `x_diff = out_x - in_x`, `y_diff = out_y - in_y` -/
+def inQuadrant (q : Nat) (ox oy : Rat) (p : Pt) : Bool :=
+  let xd := ox - p.x
+  let yd := oy - p.y
+  match q with
+  | 0 => decide (xd > 0) && decide (yd < 0)
+  | 1 => decide (xd < 0) && decide (yd < 0)
+  | 2 => decide (xd > 0) && decide (yd > 0)
+  | _ => decide (xd < 0) && decide (yd > 0)
+
+/-- `_get_corner`: position (in kd-tree order) of the first neighbour in the quadrant; neighbours with NaN
+coordinates (`none`) are never valid -/
+def pickCorner (q : Nat) (ox oy : Rat) (nb : List (Option Pt)) : Option Nat :=
+  nb.findIdx? (fun o => match o with | some p => inQuadrant q ox oy p | none => false)
+
+/-! ### the solver -/
+
+/-- `_calc_abc` for corner order (pt_1, pt_2, pt_3, pt_4) -/
+def calcABC (p1 p2 p3 p4 : Pt) (oy ox : Rat) : Rat × Rat × Rat :=
+  let x21 := p2.x - p1.x
+  let x31 := p3.x - p1.x
+  let x42 := p4.x - p2.x
+  let y21 := p2.y - p1.y
+  let y31 := p3.y - p1.y
+  let y42 := p4.y - p2.y
+  let a := x31 * y42 - y31 * x42
+  let b := oy * (x42 - x31) - ox * (y42 - y31) + x31 * p2.y - y31 * p2.x + y42 * p1.x - x42 * p1.y
+  let c := oy * x21 - ox * y21 + p1.x * p2.y - p2.x * p1.y
+  (a, b, c)
+
+def disc (abc : Rat × Rat × Rat) : Rat := abc.2.1 * abc.2.1 - 4 * abc.1 * abc.2.2
+
+/-- which candidate `_solve_quadratic` returned -/
+inductive Root | x1 | x2 | lin
+deriving Repr, DecidableEq
+
+/-- the two roots in the numerically stable form used by the code: `q = -(b + sgn(b)·sqrt(D)) / 2`, roots `q / a` and `c / q`,
+ordered as `x_1 = (-b + sqrt(D)) / 2a`, `x_2 = (-b - sqrt(D)) / 2a` -/
+def stableRoots (abc : Rat × Rat × Rat) (r : Rat) : Option Rat × Option Rat :=
+  let (a, b, c) := abc
+  let q := -(1/2 : Rat) * (b + (if b < 0 then -1 else 1) * r)
+  let rootQA := divQ q a
+  let rootCQ := divQ c q
+  if b < 0 then (rootQA, rootCQ) else (rootCQ, rootQA)
+
+/-- `_solve_quadratic(a, b, c, 0, 1)` with `r = sqrt(discriminant)` (`none` = NaN for a negative discriminant) -/
+def solveQuadratic (abc : Rat × Rat × Rat) (r : Option Rat) : Option (Rat × Root) :=
+  let x12 : Option Rat × Option Rat := match r with
+    | some r => stableRoots abc r
+    | none => (none, none)
+  let x3 := divQ (-abc.2.2) abc.2.1
+  match keep01 x12.1 with
+  | some v => some (v, .x1)
+  | none =>
+    match keep01 x12.2 with
+    | some v => some (v, .x2)
+    | none =>
+      match keep01 x3 with
+      | some v => some (v, .lin)
+      | none => none
+
+def absQ (q : Rat) : Rat := if 0 ≤ q then q else -q
+def maxQ (a b : Rat) : Rat := if a ≤ b then b else a
+
+/-- `_solve_another_fractional_distance(f, (y_1, y_2, y_3, y_4), out_y)`; a denominator that is tiny against the y-extent
+of the two sides is treated as ill-conditioned (NaN) -/
+def solveAnother (f : Option Rat) (y1 y2 y3 y4 oy : Rat) : Option Rat :=
+  match f with
+  | none => none
+  | some f =>
+    let y21 := y2 - y1
+    let y43 := y4 - y3
+    let den := y3 + y43 * f - y1 - y21 * f
+    if absQ den ≤ (1/1000000 : Rat) * maxQ (absQ y21) (absQ y43) then none
+    else keep01 (divQ (oy - y1 - y21 * f) den)
+
+/-- a branch result: (t, s) both valid -/
+def both (t s : Option Rat) : Option (Rat × Rat) :=
+  match t, s with
+  | some t, some s => if in01 t && in01 s then some (t, s) else none
+  | _, _ => none
+
+def irregularRoot (p1 p2 p3 p4 : Pt) (ox oy : Rat) (r : Option Rat) : Option (Rat × Root) :=
+  solveQuadratic (calcABC p1 p2 p3 p4 oy ox) r
+
+/-- `_get_fractional_distances_irregular` followed by `_invalid_s_and_t_to_nan` -/
+def irregular (p1 p2 p3 p4 : Pt) (ox oy : Rat) (r : Option Rat) : Option (Rat × Rat) :=
+  let t := (irregularRoot p1 p2 p3 p4 ox oy r).map (·.1)
+  let s := solveAnother t p1.y p3.y p2.y p4.y oy
+  both t s
+
+def uprightsRoot (p1 p2 p3 p4 : Pt) (ox oy : Rat) (r : Option Rat) : Option (Rat × Root) :=
+  solveQuadratic (calcABC p1 p3 p2 p4 oy ox) r
+
+/-- `_get_fractional_distances_uprights_parallel` -/
+def uprights (p1 p2 p3 p4 : Pt) (ox oy : Rat) (r : Option Rat) : Option (Rat × Rat) :=
+  let s := (uprightsRoot p1 p2 p3 p4 ox oy r).map (·.1)
+  let t := solveAnother s p1.y p2.y p3.y p4.y oy
+  both t s
+
+/-- `_get_fractional_distances_parallellogram` (pt_4 is not used) -/
+def parallelogram (p1 p2 p3 : Pt) (ox oy : Rat) : Option (Rat × Rat) :=
+  let x21 := p2.x - p1.x
+  let x31 := p3.x - p1.x
+  let y21 := p2.y - p1.y
+  let y31 := p3.y - p1.y
+  let t := keep01 (divQ (x21 * (oy - p1.y) - y21 * (ox - p1.x)) (x21 * y31 - y21 * x31))
+  let s := match t with
+    | some t => keep01 (divQ (ox - p1.x + x31 * t) x21)
+    | none => none
+  both t s
+
+inductive Branch | irr | upr | par
+deriving Repr, DecidableEq
+
+/-- `_get_fractional_distances`: the general case, then the two updates where the result is still NaN.
+`r1`, `r2` = square roots of the discriminants of the first and of the second quadratic -/
+def fractional (p1 p2 p3 p4 : Pt) (ox oy : Rat) (r1 r2 : Option Rat) : Option (Rat × Rat × Branch) :=
+  match irregular p1 p2 p3 p4 ox oy r1 with
+  | some (t, s) => some (t, s, .irr)
+  | none =>
+    match uprights p1 p2 p3 p4 ox oy r2 with
+    | some (t, s) => some (t, s, .upr)
+    | none =>
+      match parallelogram p1 p2 p3 ox oy with
+      | some (t, s) => some (t, s, .par)
+      | none => none
+
+/-- `BilinearBase._get_fractional_distances`: corners may be missing (NaN coordinates); a NaN in any of the first three
+corners poisons all three solution methods, a missing fourth corner is masked explicitly -/
+def fractionalOpt (c1 c2 c3 c4 : Option Pt) (ox oy : Rat) (r1 r2 : Option Rat) : Option (Rat × Rat × Branch) :=
+  match c1, c2, c3, c4 with
+  | some p1, some p2, some p3, some p4 => fractional p1 p2 p3 p4 ox oy r1 r2
+  | _, _, _, _ => none
+
+/-- executable certificate of the solution path: the value came from one of the two quadratic branches and the root used
+is a root of the quadratic (not the linear fallback with `a ≠ 0`). `certified_exact` proves that certified results are exact. -/
+def certified (p1 p2 p3 p4 : Pt) (ox oy : Rat) (r1 r2 : Option Rat) : Bool :=
+  match irregular p1 p2 p3 p4 ox oy r1 with
+  | some _ =>
+    (match irregularRoot p1 p2 p3 p4 ox oy r1 with
+     | some (_, rt) => rt != .lin || (calcABC p1 p2 p3 p4 oy ox).1 == 0
+     | none => false)
+  | none =>
+    match uprights p1 p2 p3 p4 ox oy r2 with
+    | some _ =>
+      (match uprightsRoot p1 p2 p3 p4 ox oy r2 with
+       | some (_, rt) => rt != .lin || (calcABC p1 p3 p2 p4 oy ox).1 == 0
+       | none => false)
+    | none => false
+
+/-- `_resample`: the weighted sum of the four corner values -/
+def resample (v1 v2 v3 v4 s t : Rat) : Rat :=
+  v1 * (1 - s) * (1 - t) + v2 * s * (1 - t) + v3 * (1 - s) * t + v4 * s * t
+
+/-- the bilinear map of the unit square onto the quadrilateral: what (s, t) mean geometrically -/
+def bilinMap (p1 p2 p3 p4 : Pt) (s t : Rat) : Pt :=
+  { x := resample p1.x p2.x p3.x p4.x s t, y := resample p1.y p2.y p3.y p4.y s t }
+
+/-! ### executable square root (driver only; the theorems take `r` as a parameter) -/
+
+/-- exact for perfect squares, otherwise the floor of the root at 18 decimal digits -/
+def sqrtQ (q : Rat) : Option Rat :=
+  if q < 0 then none else
+  let n := q.num.toNat
+  let d := q.den
+  let m := n * d
+  let s := Nat.sqrt m
+  if s * s = m then some ((s : Rat) / (d : Rat))
+  else
+    let k := 10 ^ 18
+    some ((Nat.sqrt (m * k * k) : Rat) / ((d : Rat) * (k : Rat)))
+
+/-! ### driver -/
+open Wire
+
+def showBranch : Branch → String
+  | .irr => "irr" | .upr => "upr" | .par => "par"
+
+def pts? (toks : List String) : Option (List Rat) := toks.mapM rat?
+
 def handle : List String → Option String
+  | "frac" :: rest => do
+    -- frac x1 y1 x2 y2 x3 y3 x4 y4 ox oy  ->  none | <branch> <t> <s> <certified>
+    let v ← pts? rest
+    match v with
+    | [x1, y1, x2, y2, x3, y3, x4, y4, ox, oy] =>
+      let p1 : Pt := ⟨x1, y1⟩; let p2 : Pt := ⟨x2, y2⟩; let p3 : Pt := ⟨x3, y3⟩; let p4 : Pt := ⟨x4, y4⟩
+      let r1 := sqrtQ (disc (calcABC p1 p2 p3 p4 oy ox))
+      let r2 := sqrtQ (disc (calcABC p1 p3 p2 p4 oy ox))
+      match fractional p1 p2 p3 p4 ox oy r1 r2 with
+      | none => some "none"
+      | some (t, s, b) => some s!"{showBranch b} {showRat t} {showRat s} {showBool (certified p1 p2 p3 p4 ox oy r1 r2)}"
+    | _ => none
+  | "corners" :: k :: ox :: oy :: rest => do
+    -- corners k ox oy (x y | nan nan) * k  ->  four positions (or -1)
+    let k ← nat? k; let ox ← rat? ox; let oy ← rat? oy
+    if rest.length ≠ 2 * k then none else
+    let rec mk : Nat → List String → Option (List (Option Pt))
+      | 0, _ => some []
+      | n + 1, a :: b :: t => do
+        let tl ← mk n t
+        if a = "nan" || b = "nan" then some (none :: tl)
+        else
+          let x ← rat? a; let y ← rat? b
+          some (some ⟨x, y⟩ :: tl)
+      | _, _ => none
+    let nb ← mk k rest
+    let sh := fun (o : Option Nat) => match o with | some i => toString i | none => "-1"
+    some (" ".intercalate ((List.range 4).map (fun q => sh (pickCorner q ox oy nb))))
+  | ["resample", v1, v2, v3, v4, s, t] => do
+    let v1 ← rat? v1; let v2 ← rat? v2; let v3 ← rat? v3; let v4 ← rat? v4; let s ← rat? s; let t ← rat? t
+    some (showRat (resample v1 v2 v3 v4 s t))
   | _ => none
 
 end PyresampleModel.C06
